@@ -165,6 +165,16 @@ static void do_register(struct crec *c, int spawn)
 	}
 }
 
+int sxh_all_reports_collected(void *arg)
+{
+	int i;
+
+	for (i = 0; i < p_nchildren; i++)
+		if (p_children[i].exists && p_children[i].has_report)
+			return 0;
+	return 1;
+}
+
 /* the outside world: children change state */
 static void *world_main(void *arg)
 {
@@ -177,6 +187,12 @@ static void *world_main(void *arg)
 		struct crec *c;
 
 		sx_sched();
+		if (e > 0 && sx_opt("worldwait", 0)) {
+			/* the next state change comes only after the previous one has been collected */
+			extern int sxh_all_reports_collected(void *);
+			if (!sxh_all_reports_collected(NULL))
+				sx_block_until(sxh_all_reports_collected, NULL, -1);
+		}
 		for (i = 0; i < nC; i++)
 			if (C[i].alive && C[i].pid)
 				cand[n++] = &C[i];
